@@ -71,7 +71,7 @@ Ltac tv_norms :=
 """
 
 
-def rand_env(rng, nv, ns, nf=0, small=True):
+def rand_env(rng, nv, ns, nf=0, small=True, nf2=0):
     lo, hi = (-3, 3) if small else (-9, 9)
 
     def vec():
@@ -80,8 +80,12 @@ def rand_env(rng, nv, ns, nf=0, small=True):
             if any(v):
                 return v
     scal = lambda: Fraction(rng.choice([x for x in range(lo, hi + 1) if x != 0]))
-    return vx.Env([vec() for _ in range(nv)], [scal() for _ in range(ns)], scal(), [vec() for _ in range(nf)],
-        [vec() for _ in range(nf)], [vec() for _ in range(nf)])
+    env = vx.Env([vec() for _ in range(nv)], [scal() for _ in range(ns)], scal(), [vec() for _ in range(nf)],
+        [vec() for _ in range(nf)], [vec() for _ in range(nf)], scal())
+    for i in range(nf2):
+        for suffix in ("", "_t", "_u", "_tu"):
+            env.g[f"{i}{suffix}"] = vec()
+    return env
 
 
 def find_factor(P, Q):
@@ -162,7 +166,8 @@ def process(job):
     from symplyphysics.core.experimental import vectors as V  # pylint: disable=import-outside-toplevel
     try:
         o = vx.Objs(job["nv"], job["ns"], job.get("nf", 0), rank=job.get("rank"), creation=job.get("creation"),
-            spread=job.get("spread"), spread_rng=__import__("random").Random(job.get("spread_seed", 0)))
+            spread=job.get("spread"), spread_rng=__import__("random").Random(job.get("spread_seed", 0)),
+            same_name=bool(job.get("same_name")), nfun2=job.get("nfun2", 0))
         res["id_rank"] = o.id_rank()
         res["between"] = o.between
         fired = []
@@ -175,6 +180,17 @@ def process(job):
             elif job["mode"] == "diff":
                 base = vx.build(recipe, o)
                 obj = base.diff(o.par) if not vx.is_vec(recipe) else V.vector_diff(base, o.par)
+            elif job["mode"] == "partial":
+                # mixed partial derivative w.r.t. the two parameters, in the order job["order"]
+                base = vx.build(recipe, o)
+                first, second = (o.par, o.par2) if job.get("order", "tu") == "tu" else (o.par2, o.par)
+                isv = vx.is_vec(recipe)
+                form = job.get("twice_form", "nested")
+                if form == "nested":
+                    one = V.vector_diff(base, first) if isv else sympy.sympify(base).diff(first)
+                    obj = V.vector_diff(one, second) if isv else sympy.sympify(one).diff(second)
+                else:
+                    obj = V.vector_diff(base, first, second) if isv else sympy.sympify(base).diff(first, second)
             elif job["mode"] == "diff2":
                 base = vx.build(recipe, o)
                 if job.get("twice_form", "nested") == "nested":
@@ -206,6 +222,8 @@ def process(job):
         spec = vx.diff_recipe(recipe)
     elif job["mode"] == "diff2":
         spec = vx.diff_recipe(vx.diff_recipe(recipe))
+    elif job["mode"] == "partial":
+        spec = vx.diff_recipe(vx.diff_recipe(recipe, "t"), "u")
     want = "v" if vx.is_vec(recipe) else "s"
     c = vx.OutCtx(o)
     try:
@@ -222,19 +240,22 @@ def process(job):
     for i in range(job.get("nf", 0)):
         atoms["f"].add(i)
     atoms["par"] = True
+    if job.get("nfun2"):
+        atoms["g"] = set(range(job["nfun2"]))
+        atoms["par2"] = True
     in_coq = vx.coq_of_recipe(spec)
     hyps = ""
     quotient = False
     has_norm = bool(vx.norm_args(spec)) or bool(c.norm_args) or bool(c.abs_args)
-    if job["mode"].startswith("diff") and c.den_args and not c.abs_args and not vx.norm_args(spec):
+    if job["mode"] in ("diff", "diff2", "partial") and c.den_args and not c.abs_args and not vx.norm_args(spec):
         # quotients produced by SymPy's power rule; norms then occur only squared (norm v * norm v), rewritten to v.v
         has_norm = False
-    if job["mode"] in ("diff", "diff2"):
+    if job["mode"] in ("diff", "diff2", "partial"):
         nz = sorted({vx.coq_of_recipe(x) for x in vx.norm_args(recipe)})
         hyps = "".join(f"norm {x} <> 0 -> " for x in nz)
         quotient = bool(nz)
     dens = sorted({vx.coq_of_recipe(d) for d in sdiv_dens(spec)})
-    out_dens = sorted(set(c.den_args) - set(dens)) if job["mode"].startswith("diff") else []
+    out_dens = sorted(set(c.den_args) - set(dens)) if job["mode"] in ("diff", "diff2", "partial") else []
     hyps += "".join(f"{d} <> 0 -> " for d in dens + out_dens)
     res["statement"] = f"forall {vx.binder(atoms)}, {hyps}{in_coq} = {out_coq}"
     if has_norm:
